@@ -1,5 +1,6 @@
 import Verif.Spec.JsDeclSem
 import Verif.Model.JsPrint
+import Verif.Gen.JsHoistFacts
 /-!
 # C01D — behavioural model of the declaration handling of the JS minifier (`KeepVarNames = true`)
 
@@ -24,6 +25,7 @@ namespace Verif.Model.JsHoist
 open Verif.Spec.JsDeclSem Verif.Model.JsAst
 open Verif.Spec.JsSyntax (E BOp UOp Lit)
 open Verif.Spec.JsGrammar (Tok)
+open Verif.Gen.JsHoistFacts
 
 /-! ## expressions -/
 
@@ -149,25 +151,26 @@ deriving Repr, Inhabited
 
 mutual
 /-- the `var` declarations in the order of `Scope.Func.VarDecls`; `path` = names declared by the enclosing block
-    scopes below the function scope (`Scope.Declared`), innermost first -/
-def collectS (path : List (List String)) : DS → List DeclInfo
+    scopes below the function scope (`Scope.Declared`), innermost first; `kw` = `isShadowed` knows about `while` loops
+    (`Gen.JsHoistFacts.isShadowedKnowsWhile`) -/
+def collectS (kw : Bool) (path : List (List String)) : DS → List DeclInfo
   | .decl .var items => [⟨items, false, path, []⟩]
-  | .ifS _ t e => collectS path t ++ collectS path e
-  | .block l => collectL (lexNamesL l :: path) l
+  | .ifS _ t e => collectS kw path t ++ collectS kw path e
+  | .block l => collectL kw (lexNamesL l :: path) l
   | .forS w i _ _ b =>
     match i with
-    | .decl .var items => ⟨items, true, path, []⟩ :: collectL ((lexNamesL b) :: path) b
+    | .decl .var items => ⟨items, true, path, []⟩ :: collectL kw ((lexNamesL b) :: path) b
     | .empty =>
       -- the parser adds an empty `var` declaration after the body; for `while` its scope is the enclosing one,
-      -- of which `isShadowed` skips the innermost block
-      collectL (lexNamesL b :: path) b ++
-        [⟨[], true, if w then path.drop 1 else path, if w then path.headD [] else []⟩]
-    | _ => collectL (((lexDeclsS i).map (·.1) ++ lexNamesL b) :: path) b
-  | .tryS b x _ cb => collectL (lexNamesL b :: path) b ++ collectL ((x :: lexNamesL cb) :: path) cb
+      -- of which `isShadowed` skips the innermost block (unless repaired)
+      collectL kw (lexNamesL b :: path) b ++
+        [⟨[], true, if w && !kw then path.drop 1 else path, if w && !kw then path.headD [] else []⟩]
+    | _ => collectL kw (((lexDeclsS i).map (·.1) ++ lexNamesL b) :: path) b
+  | .tryS b x _ cb => collectL kw (lexNamesL b :: path) b ++ collectL kw ((x :: lexNamesL cb) :: path) cb
   | _ => []
-def collectL (path : List (List String)) : List DS → List DeclInfo
+def collectL (kw : Bool) (path : List (List String)) : List DS → List DeclInfo
   | [] => []
-  | s :: t => collectS path s ++ collectL path t
+  | s :: t => collectS kw path s ++ collectL kw path t
 end
 
 /-- `countHoistLength` with `KeepVarNames` -/
@@ -285,16 +288,19 @@ def applyL (p : Plan) : List DS → Nat → List DS × Nat
 end
 
 /-- `hoistVars` on the body of a function (or the program) -/
-def hoistBody (body : List DS) : List DS :=
-  match plan (collectL [] body) with
+def hoistBodyG (kw : Bool) (body : List DS) : List DS :=
+  match plan (collectL kw [] body) with
   | none => body
   | some p => (applyL p body 0).1
+
+/-- `hoistVars` as it is in /repo now -/
+def hoistBody (body : List DS) : List DS := hoistBodyG isShadowedKnowsWhile body
 
 /-- trigger of the open known finding K-C01D-1 on one function body: the declaration that receives the hoisted names is
     the empty head of a `while` loop standing in a block, and one of the hoisted names is declared with let / const in
     that block -/
 def d1Body (body : List DS) : Bool :=
-  let ds := collectL [] body
+  let ds := collectL isShadowedKnowsWhile [] body
   match plan ds with
   | none => false
   | some p =>
@@ -359,7 +365,7 @@ def foreignL (own : List String) : List DS → Bool
   | s :: t => foreignS own s || foreignL own t
 end
 
-def d4Trigger (prog : List DS) : Bool := foreignL (varNamesL prog) prog
+def d4Trigger (prog : List DS) : Bool := !mergeChecksOwnFunction && foreignL (varNamesL prog) prog
 
 mutual
 def mentionsVar : DE → Bool
@@ -428,7 +434,8 @@ structure VD where
 deriving Repr, Inhabited
 
 abbrev Store := List VD
-abbrev SM := StateT Store Option
+/-- the state is the store; the reader holds the `var` names of the function under work (`Scope.Func.Declared`) -/
+abbrev SM := ReaderT (List String) (StateT Store Option)
 
 def declRef (did : Nat) : DS := .decl .var [.num did]
 def hdeclRef (did : Nat) : DE := .hdecl [.num did]
@@ -627,8 +634,11 @@ def mergeCommaS (dst : Nat) (forward : Bool) : List DE → SM (List DE)
        | some src => do mergeDeclsS dst src forward; mergeCommaS dst forward t
        | none => failure)
     | .assign x a e =>
-      if a.decl == 1 then do addDefS dst (.assign x a e) forward; mergeCommaS dst forward t
-      else pure (it :: t)
+      do
+        let own ← read
+        if a.decl == 1 && (!mergeChecksOwnFunction || own.contains x) then do
+          addDefS dst (.assign x a e) forward; mergeCommaS dst forward t
+        else pure (it :: t)
     | _ => pure (it :: t)
 
 /-- `mergeVarDeclExprStmt(decl, exprStmt, forward)`: what is left of the expression (`none` = merged completely) -/
@@ -642,8 +652,11 @@ def mergeDeclExprS (dst : Nat) (v : DE) (forward : Bool) : SM (Option DE) :=
     let rest ← mergeCommaS dst forward (if forward then l.reverse else l)
     pure (if rest.isEmpty then none else some (.comma (if forward then rest.reverse else rest)))
   | .assign x a e =>
-    if a.decl == 1 then do addDefS dst (.assign x a e) forward; pure none
-    else pure (some v)
+    do
+      let own ← read
+      if a.decl == 1 && (!mergeChecksOwnFunction || own.contains x) then do
+        addDefS dst (.assign x a e) forward; pure none
+      else pure (some v)
   | _ => pure (some v)
 
 /-- merging into `s2` of the expression statement `left` that precedes it: `none` = nothing merged -/
@@ -1102,7 +1115,7 @@ def printDecl (k0 : DeclKind) (items0 : List DE) : SM (List Tok) := do
 
 /-- the body of a nested function (or the program) as references with its own store -/
 def enterBody (body : List DS) : List DS × Store :=
-  ((refL body 0).1, hoistStore (collectL [] body))
+  ((refL body 0).1, hoistStore (collectL isShadowedKnowsWhile [] body))
 
 mutual
 /-- `endsInIf`: re-runs `optimizeStmt` on an `if` without else, which mutates that node; the statement as it is
@@ -1133,6 +1146,82 @@ def endsInIf : Nat → DS → SM (Bool × DS)
 end
 
 mutual
+/-- the name `x` occurs in an expression (as the visitor of `assignedByVar` sees `*js.Var` nodes) -/
+def namedE (x : String) : DE → Bool
+  | .var y _ => y == x
+  | .assign y _ e => y == x || namedE x e
+  | .postinc y _ => y == x
+  | .call f a => namedE x f || namedEL x a
+  | .bin _ a b => namedE x a || namedE x b
+  | .not e => namedE x e
+  | .typeof e => namedE x e
+  | .cond c a b => namedE x c || namedE x a || namedE x b
+  | .comma l => namedEL x l
+  | .group e => namedE x e
+  | .hdecl l => namedEL x l
+  | _ => false
+def namedEL (x : String) : List DE → Bool
+  | [] => false
+  | a :: t => namedE x a || namedEL x t
+end
+
+def namedOE (x : String) : Option DE → Bool
+  | none => false
+  | some e => namedE x e
+
+/-- (declared, assigned, used) of the visitor on the items of one `var` declaration: the bindings are not uses, the
+    initialisers are walked -/
+def visitItems (x : String) : List DE → Bool × Bool × Bool
+  | [] => (false, false, false)
+  | .var y _ :: t => let r := visitItems x t; (y == x || r.1, r.2.1, r.2.2)
+  | .assign y _ e :: t => let r := visitItems x t; (y == x || r.1, y == x || r.2.1, namedE x e || r.2.2)
+  | _ :: t => visitItems x t
+
+def or3 (a b : Bool × Bool × Bool) : Bool × Bool × Bool := (a.1 || b.1, a.2.1 || b.2.1, a.2.2 || b.2.2)
+
+mutual
+/-- the visitor of `assignedByVar` below a statement, not into nested functions -/
+def visitS (x : String) : DS → Bool × Bool × Bool
+  | .expr e => (false, false, namedE x e)
+  | .decl k items =>
+    if k == .var || k == .hoisted then visitItems x items
+    else (false, false, items.any (fun i => match i with
+      | .var y _ => y == x
+      | .assign y _ e => y == x || namedE x e
+      | _ => false))
+  | .ifS c t e => or3 (false, false, namedE x c) (or3 (visitS x t) (visitS x e))
+  | .block l => visitL x l
+  | .forS _ i c p b => or3 (visitS x i) (or3 (false, false, namedOE x c || namedOE x p) (visitL x b))
+  | .ret e => (false, false, namedOE x e)
+  | .throw e => (false, false, namedE x e)
+  | .tryS b y _ cb => or3 (visitL x b) (or3 (false, false, y == x) (visitL x cb))
+  | _ => (false, false, false)
+def visitL (x : String) : List DS → Bool × Bool × Bool
+  | [] => (false, false, false)
+  | s :: t => or3 (visitS x s) (visitL x t)
+end
+
+/-- `assignedByVar(block, name)` of docs/C01D-fix-2.patch: the catch block redeclares the name with `var` and either
+    initialises it or uses the name -/
+def assignsVarL (x : String) (cb : List DS) : Bool :=
+  let r := visitL x cb
+  r.1 && (r.2.1 || r.2.2)
+
+mutual
+/-- `assignedByVar(stmt.Catch, v.Data)` for the catch parameter with identity `rid` somewhere in the program -/
+def assignedByVarInS (x : String) (rid : Nat) : DS → Bool
+  | .ifS _ t e => assignedByVarInS x rid t || assignedByVarInS x rid e
+  | .block l => assignedByVarIn x rid l
+  | .forS _ _ _ _ b => assignedByVarIn x rid b
+  | .tryS b y a cb => (a.rid == rid && y == x && assignsVarL x cb) || assignedByVarIn x rid b || assignedByVarIn x rid cb
+  | .fn _ _ _ body => assignedByVarIn x rid body
+  | _ => false
+def assignedByVarIn (x : String) (rid : Nat) : List DS → Bool
+  | [] => false
+  | s :: t => assignedByVarInS x rid s || assignedByVarIn x rid t
+end
+
+mutual
 /-- `minifyStmt`: tokens written and the value of `needsSemicolon` afterwards -/
 def printS (orig : List DS) : Nat → DS → SM (List Tok × Bool)
   | 0, _ => failure
@@ -1151,7 +1240,7 @@ def printS (orig : List DS) : Nat → DS → SM (List Tok × Bool)
       let sub : SM (List Tok) := do
         let body' ← optList (4 * sizeSL body + 16) eb.1 .function
         printL orig fuel body' false
-      (match sub.run eb.2, keptParams ps body with
+      (match (sub.run (varNamesL body)).run eb.2, keptParams ps body with
        | some (t, _), some ps' =>
          pure ([Tok.kw "function", Tok.ident name, Tok.p "("] ++ sepToks (Tok.p ",") (ps'.map (fun p => [Tok.ident p]))
            ++ [Tok.p ")", Tok.p "{"] ++ t ++ [Tok.p "}"], false)
@@ -1161,7 +1250,8 @@ def printS (orig : List DS) : Nat → DS → SM (List Tok × Bool)
       let tb ← printL orig fuel b' false
       let cb' ← optList (4 * sizeSL cb + 16) cb .default
       let tc ← printL orig fuel cb' false
-      let bind := if 0 < occSL a.rid orig then [Tok.p "(", Tok.ident x, Tok.p ")"] else []
+      let keep := decide (0 < occSL a.rid orig) || (catchKeepsAssignedByVar && assignedByVarIn x a.rid orig)
+      let bind := if keep then [Tok.p "(", Tok.ident x, Tok.p ")"] else []
       pure ([Tok.kw "try", Tok.p "{"] ++ tb ++ [Tok.p "}", Tok.kw "catch"] ++ bind ++ [Tok.p "{"] ++ tc ++ [Tok.p "}"], false)
     | .forS _ i c p b => do
       let b' ← optList (4 * sizeSL b + 16) b .iteration
@@ -1214,14 +1304,14 @@ def jsTokens (prog : List DS) : Option (List Tok) :=
   let sub : SM (List Tok) := do
     let l ← optList (4 * sizeSL prog + 16) eb.1 .function
     printL prog (4 * sizeSL prog + 64) l false
-  (sub.run eb.2).map (·.1)
+  ((sub.run (varNamesL prog)).run eb.2).map (·.1)
 
 def jsMinify (prog : List DS) : Option (List Char) := (jsTokens prog).map JsPrint.emit
 
 /-- consistency of the two presentations of `hoistVars`: the store and the references read back give `hoistBody` -/
 def hoistConsistent (body : List DS) : Bool :=
   let eb := enterBody body
-  toString (repr (readL eb.2 eb.1)) == toString (repr (hoistBody body))
+  toString (repr (readL eb.2 eb.1)) == toString (repr (hoistBody body))   -- (both use `isShadowedKnowsWhile`)
 
 mutual
 def hoistConsistentS : DS → Bool
